@@ -571,6 +571,44 @@ def reserved0(ctx):
     ctx.ob("RESERVED0", "A|RawConnectorBuilder::from_readers|empty-feature-is-id-0", ok, fn_loc(crate, p),
            "both feature-id maps receive (\"\" -> 0) before any bigram.cost line is parsed" if ok else
            "the empty feature is not reserved as id 0 in both maps before parsing (%s)" % sorted(targets))
+    # the dual connector: the reserved row of the matrix part is keyed by the empty feature
+    # (id 0) at every matrix position, and the first row of both raw-part tables is id 0 too
+    DP = "vibrato::dictionary::connector::dual_connector::DualConnector::"
+    mcl = [q for q in crate.fns if q.startswith(DP + "create_matrix_connector::{closure") and crate.fns[q].body]
+    nres = 0
+    for q in mcl:
+        cfa = E.fa(q)
+        CS = Sym(E, cfa, depth=20)
+        for b, t in calls_named(cfa, "insert"):
+            if "HashMap" not in callee_of(t)["path"] or len(t["args"]) < 3:
+                continue
+            key = CS.operand(t["args"][1])
+            val = CS.operand(t["args"][2])
+            if not (key[0] == "call" and short(key[1]) == "from_elem" and val == ("const", 0)):
+                continue
+            nres += 1
+            elem = key[2][0]
+            okz = elem == ("const", 0) or (elem[0] == "call" and short(elem[1]) == "default" and not elem[2])
+            ctx.ob("RESERVED0", "A|DualConnector::create_matrix_connector|row0-key-is-empty-feature", okz,
+                   cfa.loc(b),
+                   "the reserved BOS/EOS row of the matrix part is keyed by feature id 0 at every position"
+                   if okz else
+                   "the reserved row 0 of the dual connector's matrix part is keyed by %s instead of "
+                   "the empty feature (id 0): connections with BOS/EOS lose the pre-summed costs of "
+                   "the empty feature" % show(elem)[:40])
+    ctx.floor("RESERVED0", "reserved matrix rows in the dual connector", nres, 1)
+    q = DP + "create_raw_connector"
+    cfa = E.fa(q)
+    CS = Sym(E, cfa, depth=20)
+    fe = calls_named(cfa, "from_elem")
+    okr = len(fe) >= 2
+    for b, t in fe:
+        elem = CS.operand(t["args"][0])
+        okr = okr and (elem == ("const", 0) or (elem[0] == "call" and short(elem[1]) == "default" and not elem[2]))
+    ctx.ob("RESERVED0", "A|DualConnector::create_raw_connector|row0-is-empty-feature", okr, fn_loc(crate, q),
+           "the BOS/EOS row of both raw-part tables is feature id 0 at every lane" if okr else
+           "the first (BOS/EOS) row of a raw-part table of the dual connector is not filled with the "
+           "empty feature id 0")
     # parse_features: unknown features map to INVALID
     p = "vibrato::dictionary::connector::raw_connector::RawConnectorBuilder::parse_features"
     fa = E.fa(p)
